@@ -329,8 +329,6 @@ func (g *c01SwG) num() string {
 	switch {
 	case k < 1 && !g.strictNow() && g.chance(3):
 		return g.pick(c01SwNumsSloppy)
-	case k < 8:
-		return g.pick(c01SwBigs)
 	case k < 12:
 		return "-0"
 	case k < 45:
@@ -372,9 +370,12 @@ func (g *c01SwG) args(d, max int) string {
 	n := g.intn(max + 1)
 	parts := make([]string, 0, n)
 	for i := 0; i < n; i++ {
-		if g.chance(8) {
+		switch {
+		case g.chance(8):
 			parts = append(parts, "..."+g.iterable(d-1))
-		} else {
+		case g.chance(3): // bigints only meet bigints (mixed arithmetic throws from operators a minifier treats as pure)
+			parts = append(parts, g.pick([]string{g.pick(c01SwBigs), g.pick(c01SwBigs) + " * " + g.pick(c01SwBigs), "typeof " + g.pick(c01SwBigs), "-" + g.pick(c01SwBigs), g.pick(c01SwBigs) + " ** 2n"}))
+		default:
 			parts = append(parts, g.expr(d-1, c01SwPAssign))
 		}
 	}
@@ -917,7 +918,7 @@ func (g *c01SwG) expr1(d int) (string, int) {
 				}
 				return l + " instanceof " + rhs, c01SwPRel
 			}
-			return l + " in " + g.pick([]string{"o1", "o2", "{p: 1}", "[1, 2]", g.readable()}), c01SwPRel
+			return l + " in " + g.pick([]string{"o1", "o2", "{p: 1}", "[1, 2]", "o1", "{[" + g.readable() + "]: 1}"}), c01SwPRel
 		}
 		op := c01SwBinOps[g.intn(len(c01SwBinOps))]
 		l := g.expr(d-1, op.prec)
@@ -2163,13 +2164,16 @@ func (g *c01SwG) program() string {
 	g.banned = map[string]int{}
 	g.priv = nil
 	g.nodes = 0
-	g.maxNodes = 120 + g.intn(200)
+	g.maxNodes = 50 + g.intn(110)
 	g.strict = g.chance(10)
 	top := &c01SwFctx{top: true, limit: 500}
 	g.pushF(top)
 	g.push(true)
-	n := 3 + g.intn(8)
-	d := 2 + g.intn(3)
+	n := 3 + g.intn(6)
+	d := 2 + g.intn(2)
+	if g.chance(15) {
+		d = 4
+	}
 	var list []c01SwStmt
 	if g.strict {
 		list = append(list, c01SwStmt{g.pick([]string{`"use strict"`, `'use strict'`}), true})
@@ -2219,4 +2223,106 @@ func c01SweepPrograms(rng *h.RNG, n int) []string {
 		out = append(out, g.program())
 	}
 	return out
+}
+
+// ---------------------------------------------------------------- hand-written programs
+
+// c01SweepFixed returns hand-written programs: the classic nasty form of each construct, one per string.
+func c01SweepFixed() []string {
+	bt := "`"
+	return []string{
+		// scoping, hoisting, block flattening
+		`let x=2;if(a){throw 1}else{let x=3;h(x)}h(x)`,
+		`function t1(p){let x=2;if(p){return 1}else{let x=3;h(x)}h(x);return x}f(t1(a),t1(0))`,
+		`function t1(p){if(p){return f(1)}else{const c=g(2);h(()=>c)}var c=5;return c}k(t1(a),t1(0),t1(1))`,
+		`function t1(p){if(p)throw f(1);else{class C{m(){return 1}}h(new C().m())}return typeof C}try{k(t1(a))}catch(e){g(e)}k(t1(0))`,
+		`h(typeof t2,v1);var v1=f(1);function t2(){return 1}h(typeof t2,v1);{function t3(){return g(2)}h(t3())}`,
+		`function t1(){h(v);var v=1;{var v=2;let w=v;{let w=3;h(w)}h(w)}for(var v=5;v<6;v++){}return v}f(t1())`,
+		`var r1=[];for(let i=0;i<3;i++){r1.push(()=>i)}for(var j=0;j<3;j++){r1.push(()=>j)}f(r1.map(c=>c()))`,
+		`function t1(){var r=[];for(let i=0;i<2;i++){let i2=i*2;r.push(function(){return i2+i})}return r.map(q=>q())}f(t1())`,
+		`L1:for(var i=0;i<3;i++){L2:for(var j=0;j<3;j++){if(j==1)continue L1;if(i==2)break L1;f(i,j)}}g(i,j)`,
+		`L:{f(1);if(a)break L;f(2)}M:if(b){g(1);if(c)break M;g(2)}else{g(3)}`,
+		`function t1(x){switch(x){case 0:f(0);default:f("d");case 1:f(1);break;case 2:f(2)}}t1(0);t1(1);t1(2);t1(3);t1(a)`,
+		`function t1(x){switch(x){case 1:let y=f(1);return y;case 2:{let y=g(2);return y}default:return h(x)}}k(t1(1),t1(2),t1(a))`,
+		`function t1(){try{return f(1)}finally{g(2)}}function t2(){try{return f(1)}finally{return g(2)}}function t3(){for(var i=0;i<2;i++){try{continue}finally{h(i)}}return i}k(t1(),t2(),t3())`,
+		`function t1(){for(var i=0;i<3;i++){try{if(i==1)throw i;f(i)}catch{g("c");break}finally{h("f",i)}}return i}k(t1())`,
+		`function t1(p){try{throw p}catch(e){var e=2;h(e)}return typeof e}f(t1(a))`,
+		`function t1(){try{throw 1}catch({message:m="d"}){return m}}function t2(){try{f(1)}catch(e){return e}finally{g(2)}return 3}k(t1(),t2())`,
+		// shadowed undefined / NaN / Infinity
+		`function q1(undefined){return undefined}function q2(){var undefined=5;return undefined}function q3(NaN,Infinity){return[NaN,Infinity,-Infinity]}f(q1(1),q2(),q3(2,3))`,
+		`function q1(p){var Infinity=p;return 1/0===Infinity}function q2({undefined}){return undefined}function q3(){let NaN=1;return NaN===NaN}f(q1(a),q2({undefined:5}),q3())`,
+		`function t1(p){f(p);p=1;return undefined}function t2(p){f(p);return void 0}function t3(p){f(p);g(p);return}k(t1(a),t2(b),t3(c))`,
+		// parameters
+		`function t1(p=f(1),q=g(p)){return[p,q]}k(t1(),t1(0),t1(undefined,2))`,
+		`function t1(p=f(1)){}function t2(p=x++){}function t3({p=g(2)}={}){}function t4([p=h(3)]=[]){}t1();t2();t3();t4();k(x)`,
+		`function t1(a,b=2,...c){return[a,b,c,arguments.length,t1.length>=0]}f(t1(1),t1(1,undefined,3,4))`,
+		`function t1(p){p=2;return arguments[0]}function t2(p){"use strict";p=2;return arguments[0]}function t3(p,q=1){p=2;return arguments[0]}f(t1(1),t2(1),t3(1))`,
+		`function t1({p,q:[r,,s=f(1)]=[],...u}={},[v,...w]=[1,2,3]){return[p,r,s,u,v,w]}g(t1(),t1({p:1,q:[2,3],z:4},"ab"))`,
+		// closures, this, arguments
+		`var o={v:1,m(){return this.v},n:()=>this===o,p(){return(()=>this.v)()},q:function(){return function(){return this}.call(7)}};f(o.m(),o.n(),o.p(),(0,o.m)(),(o.m)(),typeof o.q())`,
+		`function t1(){return function(){return arguments.length+arguments[0]}}function t2(){return()=>arguments[0]}f(t1()(1,2),t2(5)(6))`,
+		`var c1=(function(){var n=0;return{inc:function(){return++n},get:()=>n}})();c1.inc();c1.inc();f(c1.get());(function(){f(this===undefined,typeof this)})();(()=>{g(typeof this)})()`,
+		`function C(v){if(!new.target)return new C(v);this.v=v}C.prototype.get=function(){return this.v};f(C(1).get(),new C(2).get(),new C(3)instanceof C,new C,new C().v)`,
+		// classes
+		`class A{#p=f(1);static s=g(2);x=h(3);static #c=0;constructor(v){this.v=v;A.#c++}get p(){return this.#p}set p(v){this.#p=v}static get c(){return A.#c}#m(){return this.v}m(){return this.#m()}static has(o){return #p in o}}var i=new A(5);i.p=7;k(i.p,i.m(),A.c,A.s,A.has(i),A.has({}),i)`,
+		`class A{constructor(){f("A",new.target===B)}m(){return"Am"}static s(){return"As"}}class B extends A{constructor(){g("B");super();h(this.m())}m(){return"B"+super.m()}static s(){return"B"+super.s()}}new B;k(B.s(),new B instanceof A)`,
+		`class A{["m"+f(1)](){return 1}static[g(2)]=3;*gen(){yield 1;yield*[2,3]}async am(){return 4}get [h("k")](){return 5}}var i=new A;k([...i.gen()],Object.getOwnPropertyNames(A.prototype).length);i.am().then(v=>k(v))`,
+		`var C=class N{static n=1;m(){return N.n}};var D=class extends C{};f(new D().m(),typeof N);class E extends Array{sum(){return this.reduce((p,q)=>p+q,0)}}g(E.from([1,2,3]).sum(),new E(3).length)`,
+		`class A{static{f(1);this.x=g(2)}static y=h(this.x);z=k(3)}new A;new A;f(A.x,A.y)`,
+		`class A{x=1;'y z'=2;3=3;[a]=4;static 'p q'=5}f(new A,A['p q']);class B{get(){return 1}set(v){f(v)}static(){return 2}async(){return 3}}var b=new B;g(b.get(),b.set(1),b.static(),b.async())`,
+		// generators, iterators, destructuring, spread
+		`function*g1(){var r=yield 1;f(r);try{yield 2}finally{g("cleanup")}yield 3}var it=g1();h(it.next("a"),it.next("b"),it.return(9),it.next());k(...g1(),[...g1()].length)`,
+		`function*g1(){yield*g2();return 5}function*g2(){var x=yield 1;yield x*2}var it=g1();f(it.next().value,it.next(4).value,it.next());var[p,...q]=g1();g(p,q)`,
+		`var it={[Symbol.iterator](){var n=0;return{next(){f("next",n);return{done:n>=2,value:n++}},return(){g("ret");return{}}}}};for(var v of it){h(v);if(v)break}var[x1]=it;k(x1,...it)`,
+		`var{a:a1=f(1),b:{c:c1}={c:g(2)},...r1}={b:undefined,d:4,e:5};h(a1,c1,r1);var[x1,,y1=h(3),...z1]=[1,2,undefined,4,5];k(x1,y1,z1);[a,b]=[b,a];({p:o1.p,q:o2["q"]}={p:1,q:2})`,
+		`var i=0;var arr=[];[arr[i++],arr[i++]]=[f(1),g(2)];h(arr,i);var o={};({[f("k")]:o.x=g("d")}={});k(o);for(var[p1,q1]of[[1,2],[3,4]])f(p1,q1);for(var{length:n1}of["ab","c"])g(n1)`,
+		`f(...[1,2],...("ab"),...new Set([3,3]));var o={...{p:1,q:2},q:3,...null,..."xy",...[9]};g(o,[...[1,,3]],{...o1},Math.max(...[1,5,3]))`,
+		// optional chaining, nullish, logical assignment, exponent
+		`f(a?.b,a?.[b],a?.(b),a?.b.c.d,a?.b(c),o1?.m?.(1),o1.zz?.yy.xx,(a?.b).c)`,
+		`f(null?.x,undefined?.[g(1)],null?.x.y.z(h(2)),(null)?.x);x=a??b;y=a??b??c;z=(a??b)||c;w=a??(b||c);v=(a&&b)??c;k(x,y,z,w,v)`,
+		`a&&=(f(1),g(2));b||=(f(3),g(4));c??=(f(5),g(6));o1.p&&=f(7);o1[g(8)]||=h(9);o2.q??=k(10);x=y||=(z,2);k(a,b,c,x,y)`,
+		`f(2**3**2,(-2)**2,(2**3)**2,-(2**2),2**-1,(a,2)**2,(!a)**2,(typeof a)**2,(a?1:2)**3,(+a)**2,(a++)**2,(--b)**2);x=2;x**=3;x**=(1,2);g(x)`,
+		// comma, conditional, logical with side effects
+		`x=(f(1),g(2));y=(f(3),g(4))?h(5):k(6);z=f(7)&&(g(8),h(9));w=(f=g,1)?f(1):f(2);k(x,y,z,w)`,
+		`if(f(1),g(2))h(3);else k(4);while(f(5),0);for(x=(f(6),1);x<2;x++,g(7));x=a?b?f(1):g(2):c?h(3):k(4);y=a?f(1):(g(2),h(3));k(x,y)`,
+		`x=f(1)||g(2)&&h(3);y=(f(4)||g(5))&&h(6);z=f(7)&&g(8)||h(9);w=!(f(10)&&g(11));v=!f(12)||!g(13);k(x,y,z,w,v,!a==!b,!(a==b),!(a<b),!(a>=b))`,
+		`x=void(f(1)+1);if(g(2)+1){}y=void f(3);(f(4),g(5));h(6)+k(7);-f(8);typeof g(9);[f(10)];({p:g(11)});k(x,y)`,
+		`x=""?1:2;y="0"?1:2;z=[]?1:2;w=0n?1:2;v=-0?1:2;u=NaN?1:2;t=" "?1:2;s=null??1;r=void 0??2;q=""||3;p=""&&4;f(x,y,z,w,v,u,t,s,r,q,p,!"",!"a",!!"")`,
+		// typeof, delete, void, in, instanceof, new
+		`f(typeof zz9,typeof zz9==="undefined",typeof a,typeof f,typeof null,typeof(()=>1),typeof class{},typeof 1n,typeof Symbol());var o={p:1,q:2};g(delete o.p,delete o["q"],delete o.zz,o,"p"in o,"toString"in o,1 in[1,2],2 in[1,2])`,
+		`f(new g,new g(),new g(1),new(g()),new(g())(),new g.h,new(g.h),new g().h,new(o1.m)(2),new o1.m(2),new new g()(),[]instanceof Array,o1 instanceof g,!(a instanceof g),!("p"in o1))`,
+		// object literals
+		`var p=1,q=2;var o={p,q,m(){return 1},get g1(){return f("get")},set g1(v){g("set",v)},["c"+1]:3,"s t":4,5:5,0x10:6,1e3:7,.5:8,"__proto__x":9,async am(){},*gm(){},async*agm(){},get:10,set:11,static:12,if:13,new:14};o.g1;o.g1=2;h(o,Object.keys(o))`,
+		`var o1a={__proto__:{inherited:1}};var o2a={"__proto__":{inherited:2}};var o3a={["__proto__"]:{own:3}};var __proto__={sh:4};var o4a={__proto__};f(o1a.inherited,o2a.inherited,o3a.inherited,Object.keys(o3a),Object.keys(o4a),o4a.sh)`,
+		`var o={valueOf(){f("valueOf");return 1},toString(){g("toString");return"s"}};h(o+1,o+"",` + bt + `${o}` + bt + `,o*2,o<2,o==1,[o]+"",-o,+o);k(String(o),Number(o))`,
+		// numbers
+		`f(0x1F,0XaB,0o17,0O7,0b101,0B11,1e3,1E-2,1.5e+2,.5,5.,1_000,0.000001,1e21,1e-7,123456789012345680000,0.1+0.2,1.0,0.50,9007199254740993,1_0.0_1,0xFFFFFFFF,-0,+0,0/-1,1/-0,1e400,-1e400,5e-324,1000000,100000,1e5,12e3,0.00001,1.5e-7)`,
+		`f(5..toString(),5 .toString(),.5.toString(),1e3.toString(),0x10.toString(),(5).toFixed(1),1_0.0.toString(),5.0.toFixed(2),255..toString(16),1e21.toString(),1.e2.toString(),2..constructor===Number,-5..toString(),(-5).toString(),1..valueOf())`,
+		`f(10n,0n,0x10n,1_000n,0b11n,-10n,10n*2n,2n**64n,7n/2n,typeof 10n,10n==10,10n===10n,10n<11,BigInt(9007199254740993n)+1n,123456789012345678901234567890n)`,
+		`x=1;y=2;f(x+ +y,x- -y,x+ ++y,x- --y,x++ +y,x-- -y,+ +x,- -x,+-x,-+x,- - -x,x+-y,x-+y,!-x,~-x,-~x,typeof-x,void+x,x++-y,x---y,x+++y)`,
+		`f(1/2,1/ /a/.lastIndex,a/b/c,a/(b/c),(a/b)/c,a++/2,a--/b/2,2/a++,[1]/2,(a)/2/1,x=a/2/ /x/g.lastIndex)`,
+		// strings and templates
+		"f(\"it's\",'say \"hi\"',\"\\n\",'\\x41',\"A\",\"\\u{1F600}\",'\\0',\"a\\\nb\",\"</script>\",'<\\/script>',\"<!--\",\"-->\",\"`\",'\\'',\"\\\"\",\"\\\\\",\"a\\tb\",'\\v\\f\\b',\"${x}\",\"\\r\\n\",\"\\u2028\\u2029\",\"\\ud83d\",'\\\\n',\"\\a\\c\",\"]]>\",\"\\xe9\",\"é\")",
+		"f(\"\\101\",'\\08','\\1a',\"\\7\",\"\\0\",'\\00','\\0a',\"\\x00\",017,089,00,08.5,0777)",
+		"x=1;y=\"s\";f(`a${x}b`,`${x}${y}`,`x${`y${x}`}z`,`\\n\\``,`\\${x}`,`$`,`{`,`</script>`,`'\"`,`\\\\`,`line1\nline2`,`\\u{41}\\x41`,`$${x}`,`${x}$`,`\\0`,`<!--`,`${\"${\"}`,`${`${`${x}`}`}`,`a${x+y}b${x*2}c`,`${{p:1}.p}`,`${[1,2]}`,``)",
+		"f`a${1}b`;g`\\n${a}\\u{41}`;h`\\unicode and \\xerxes`;k`</script>${b}`;f``;f`${1}${2}`;o1.m`x${1}`;g`a``b`;h(String.raw`a\\n${1}\\${}`);k((f)`x`,new g`y`)",
+		// regular expressions
+		`f(/a+b/g.test("aab"),/[/]/.test("/"),/\//.source,/[\]/]/.exec("]"),/(?<n>a)|b/u.exec("a").groups.n,/a/gimsuy.flags,/[/\\]/g.source,/\u{1F600}/u.test("😀"),"a/b".split(/\//),/=/.test("="),/[=]/.source,/(?:)/.source,/}/.source,/[[]/.source,/\$&/.source,/<\/script>/i.test("</SCRIPT>"))`,
+		`x=4;y=2;g1=1;f(x/y/g1,x/ /y/g.lastIndex);if(a)/x/.test(b)&&f(1);var r=/a/g;r.lastIndex=1;g(r.exec("aa"),r.lastIndex,r);h("aXbX".replace(/X/g,(m,i)=>i),"abc".match(/b/).index,"a1b2".replace(/\d/g,"$&$&"))`,
+		// ASI
+		"x=a\n(f(1))\ny=b\n[0]\nz=c\n+f(2)\nw=d\n-g(3)\nv=e\n/2/1\nu=f\n`t`\ng(x,y,z,w,v,u)",
+		"function t1(){return\nf(1)}function t2(){return(\nf(2))}function t3(p){p\n++\nq\nreturn[p,q]}function t4(){var i=0;L:for(;i<2;i++){continue\nL}return i}k(t1(),t2(),t3(1),t4())",
+		"x=1\ny=2\nvar z=x\n++y\nvar w=function(){return 3}\n;(function(){f(4)})()\nlet l=5\n;[x,y]=[y,x]\nconst c=6\n;`${f(7)}`\nk(x,y,z,w(),l,c)\nthrow g(8)\nh(9)",
+		"var a1=1,b1=2\nvar c1=a1\n/b1/1\nf(c1)\ndo f(1); while(0) g(2)\nif(a)f(3)\nelse g(4)\nfor(var i=0;i<1;i++)f(5)\nh(i)\nclass A{x=1\ny=2;*g(){}\nstatic\ns=3}k(new A,A.s)",
+		// async
+		`async function t1(){f(1);await null;f(2);try{await Promise.reject(3)}catch(e){f(e)}return 4}g("before");t1().then(v=>h(v));g("after");Promise.resolve().then(()=>k("micro"))`,
+		`async function*ag(){yield 1;yield 2}(async()=>{for await(var v of ag())f(v);var[x,y]=await Promise.all([g(1),g(2)]);h(x,y)})();var af=async x=>await x;var ag2=async(x,y)=>x+y;af(1).then(k);ag2(1,2).then(k)`,
+		// misc
+		`var x=0;function t1(){x++;return x}f(t1()+t1()*t1(),x);x=1;g(x+(x=2)+x,x);var y=[1,2,3];h(y[x=0],y[x++],y[x],x);o1[f(1)]=g(2);o1[h(3)]+=k(4)`,
+		`f([,],[,,],[1,,],[,1],[1,,2],[...[,]],[,].length,[1,2,3,].length,{a:1,}.a,((a,b,)=>1).length>=0,g(1,))`,
+		`label:function t1(){}if(a)function t2(){return 1}else function t3(){return 2}f(typeof t1,typeof t2,typeof t3)`,
+		`var o={f(){return this}};x=(o.f)()===o;y=(0,o.f)()===o;z=(o.f||0)()===o;w=(a?o.f:o.f)()===o;eval1=(1,g);v=o?.f()===o;f(x,y,z,w,v)`,
+		`f(1<2<3,3>2>1,1==1==1,"b"+1+2,1+2+"b","3"*"4",[]+[],[]+{},1+null,1+undefined,"5"-2,"5"+2,true+true,null==undefined,null===undefined,NaN!=NaN,0===-0,Object.is(0,-0),[1]==1,"1"==1)`,
+		`f(1+2,"a"+"b",1+"a",2*3,7%3,1<<2,-1>>>28,5&3,5|3,5^3,~5,!0,!1,!!"",1/3,0.1*3,1e21+1,2**53+1,"a"<"b",1/0,-1/0,0/0,1e3*1e3,0xff+1,"abc".length,"abc"[1],[1,2][1],+"12",+"",-"x",void 0===undefined)`,
+	}
 }
